@@ -143,6 +143,9 @@ type fatalHook struct{}
 
 func (fatalHook) Levels() []logrus.Level { return []logrus.Level{logrus.FatalLevel, logrus.PanicLevel} }
 func (fatalHook) Fire(e *logrus.Entry) error {
+	// log output is discarded in the rig; what ends a replica (or, for a panic
+	// inside the raft library's own goroutine, the whole process) must be visible
+	fmt.Fprintf(os.Stderr, "FATAL-EXIT level=%s msg=%q node=%v group=%v\n", e.Level, e.Message, e.Data["node_id"], e.Data["group_id"])
 	if c := cur(); c != nil {
 		f := Fatal{Message: e.Message}
 		if v, ok := e.Data["node_id"]; ok {
